@@ -1,4 +1,5 @@
 import MetapypeModel.Model.Expand
+import MetapypeModel.Lemmas.ExpandIds
 import MetapypeModel.Props.C01
 import MetapypeModel.Props.C05
 import MetapypeModel.Gen.Facts
@@ -617,5 +618,47 @@ theorem C16_finding_D16_witness : (collectTree Lex.lexer Gen.tables d16).isEmpty
     (match expandT (fun k => toString k) d16 0 with
      | some t' => !(collectTree Lex.lexer Gen.tables t').isEmpty
      | none => false) = true := by decide +kernel
+
+/-- **the substituted copies are new nodes**: when the node ids of the tree are pairwise distinct and the id supply is fresh for
+    it (injective, and nothing it hands out from `s` on is an id of the tree — `uuid1()`), the node ids of the expanded tree are
+    again pairwise distinct, and each of them is an id of the original tree or one drawn from the supply by this call: no copy
+    shares its id with the element it was copied from, with another copy, or with any other node -/
+theorem C16_fresh_ids (u : Nat → String) (hu : Function.Injective u) (root t' : Tree) (s : Nat)
+    (hnd : root.ids.Nodup) (hfresh : ∀ k, s ≤ k → u k ∉ root.ids) (h : expandT u root s = some t') :
+    t'.ids.Nodup ∧ ∀ x ∈ t'.ids, x ∈ root.ids ∨ ∃ k, s ≤ k ∧ x = u k := by
+  unfold expandT at h
+  simp only at h
+  split at h
+  · cases h
+  · split at h
+    · cases h
+    · simp only [Option.some.injEq] at h
+      subst h
+      have key := fun x => (substT_ids u (idsOf root) x root s).2
+      have hdn := drawn_nodup u hu s (substT u (idsOf root) root s).2
+      constructor
+      · rw [List.nodup_iff_count]
+        intro x
+        have hx := key x
+        by_cases hm : x ∈ root.ids
+        · have h0 : (drawn u s (substT u (idsOf root) root s).2).count x = 0 := by
+            rw [List.count_eq_zero]
+            intro hd
+            obtain ⟨k, hk, rfl⟩ := mem_drawn u s _ x hd
+            exact hfresh k hk hm
+          have h1 := List.nodup_iff_count.mp hnd x
+          omega
+        · have h0 : root.ids.count x = 0 := List.count_eq_zero.mpr hm
+          have h1 := List.nodup_iff_count.mp hdn x
+          omega
+      · intro x hx
+        have hx' := key x
+        have hpos : 0 < (substT u (idsOf root) root s).1.ids.count x := List.count_pos_iff.mpr hx
+        by_cases hm : x ∈ root.ids
+        · exact Or.inl hm
+        · right
+          have h0 : root.ids.count x = 0 := List.count_eq_zero.mpr hm
+          have : 0 < (drawn u s (substT u (idsOf root) root s).2).count x := by omega
+          exact mem_drawn u s _ x (List.count_pos_iff.mp this)
 
 end Metapype
